@@ -19,7 +19,7 @@ def _gc(prefix, n, live=3, pend=2, twice=0, tier="quick", timeout=600):
     uw = {"ldb_remove_obsolete_files.0": n + 1, "ldb_remove_obsolete_files.1": n + 1}
     name = "%s.gc-n%d-live%d-pend%d%s" % (prefix, n, live, pend, "-twice" if twice else "")
     return Obl(name, "dbimpl/gc.c", include_real=INC_REAL, kit=KIT, defs=defs,
-               unwind=max(n, live + pend + 2, 11) + 1, unwindset=uw, tier=tier, timeout=timeout,
+               unwind=max(n, live + pend + 2, 12) + 1, unwindset=uw, tier=tier, timeout=timeout,
                flags=["--slice-formula"], sat="cadical",
                functions=GC_FUNCS,
                desc=GC_DESC + ("; a second collection removes nothing more" if twice else ""),
@@ -39,5 +39,32 @@ def gc_obls(prefix):
     return out
 
 
+FLUSH_FUNCS = ["ldb_compact_memtable", "ldb_write_level0_table", "ldb_remove_obsolete_files", "ldb_record_background_error",
+               "ldb_stats_init", "ldb_stats_add"]
+BG_FUNCS = ["ldb_background_call", "ldb_background_compaction", "ldb_maybe_schedule_compaction"]
+
+FLUSH_DESC = ("real ldb_compact_memtable()/ldb_write_level0_table() from an arbitrary state: new table number fresh and in "
+              "pending_outputs during the build and never unlinked; edit has prev_log_number 0, log_number == logfile_number, "
+              "file added iff OK and file_size>0 at the picked level; imm released and obsolete files collected only after a "
+              "successful apply (then exactly the reference set); every failure latches bg_error, keeps imm, collects nothing")
+BG_DESC = ("; ldb_background_call(): no work after error/shutdown, broadcast under the mutex after the last state change, "
+           "scheduled flag cleared, rescheduled iff work remains and no error/shutdown")
+
+
+def _flush(prefix, mode, envgc, n=4, live=2, pend=1, tier="quick", timeout=600):
+    defs = {"VP_MODE": mode, "VP_ENVGC": envgc, "VP_N": n, "VP_LIVE": live, "VP_PEND": pend}
+    uw = {"ldb_remove_obsolete_files.0": n + 1, "ldb_remove_obsolete_files.1": n + 1}
+    name = "%s.%s%s-n%d-live%d-pend%d" % (prefix, "bgcall" if mode else "flush", "-envgc" if envgc else "", n, live, pend)
+    return Obl(name, "dbimpl/flush.c", include_real=INC_REAL, kit=KIT, defs=defs,
+               unwind=max(n, live + pend + 3, 12) + 1, unwindset=uw, tier=tier, timeout=timeout,
+               flags=["--slice-formula"], sat="cadical",
+               functions=FLUSH_FUNCS + GC_FUNCS + (BG_FUNCS if mode else []),
+               desc=FLUSH_DESC + (BG_DESC if mode else "") + ("; a collection running during the build keeps the pending table" if envgc else ""),
+               bounds="directory of %d arbitrary entries + the new table, <=%d live tables, <=%d other pending outputs, symbolic file/log/manifest numbers (64 bit), symbolic build/apply results and file size, symbolic bg_error/shutdown before and during the call, a writer may switch memtables once imm is NULL"
+                      % (n - 1, live, pend))
+
+
 def flush_obls(prefix):
-    return []
+    return [_flush(prefix, 0, 0), _flush(prefix, 0, 1), _flush(prefix, 1, 0),
+            _flush(prefix, 1, 1, tier="thorough"),
+            _flush(prefix, 1, 0, n=6, live=3, pend=2, tier="thorough", timeout=1800)]
